@@ -29,7 +29,7 @@ class TLCResult:
         for pat, kind in [
             (r"Invariant (\S+) is violated", "invariant"),
             (r"Action property (\S+) is violated", "action_property"),
-            (r"Temporal properties were violated", "temporal"),
+            (r"Temporal propert(?:y|ies) .*violated", "temporal"),
             (r"Deadlock reached", "deadlock"),
             (r"Assumption .* is false", "assume"),
             (r"The postcondition .* is false|Postcondition .* violated", "postcondition"),
